@@ -101,6 +101,14 @@ def get_scoped_setup_inputs(
                     continue
                 # if it is effect free, we recurse on it's operands
                 vals_to_inspect.extend(val.owner.operands)
+                # and on the values that ops nested in its regions use from outside of it
+                for nested_op in val.owner.walk():
+                    if nested_op is val.owner:
+                        continue
+                    for operand in nested_op.operands:
+                        def_op = operand.owner if isinstance(operand.owner, Operation) else operand.owner.parent_op()
+                        if def_op is None or not val.owner.is_ancestor(def_op):
+                            vals_to_inspect.append(operand)
                 # and note the operation down as one that computes our input variables
                 inputs.append(val.owner)
             else:
